@@ -18,7 +18,7 @@ fn packet(c: u8, i: u8, body: &[u8]) -> Vec<u8> {
 
 pub fn run(ctx: &Ctx) -> i32 {
     let mut report = ctx.report("C15", "exploration");
-    report.rule = "17 reply enums x all 65536 (class,instruction) pairs x bodies {empty, a canonical body of every variant of the enum (so: valid for the target and valid for another variant), canonical bodies of types outside the enum, random bytes, truncated}; for pairs inside the reply set additionally many canonical and byte-mutated bodies. Oracle: independent reply-set table + the variant type's own decoder on the same bytes. Enumeration is duplicate-free by construction (enum, control field, body index); non-trivial = every case (each has a definite expected outcome).".into();
+    report.rule = "17 reply enums x all 65536 (class,instruction) pairs x bodies {empty, a canonical body of every variant of the enum (so: valid for the target and valid for another variant), a whole packet of every variant as body (with and without an acknowledgement in front), canonical bodies of types outside the enum, random bytes, truncated}; for pairs inside the reply set additionally many canonical and byte-mutated bodies. Oracle: independent reply-set table + the variant type's own decoder on the same bytes. Enumeration is duplicate-free by construction (enum, control field, body index); non-trivial = every case (each has a definite expected outcome).".into();
     report.exhaustive = Some(true);
     report.assumptions = vec![
         "reply sets of DESIGN Appendix B (refcodec::tables) are the specification".into(),
@@ -56,6 +56,19 @@ pub fn run(ctx: &Ctx) -> i32 {
                 bodies.push(body_of(key, &mut rng));
             }
             bodies.extend(outside.iter().cloned());
+            // a *whole packet* of every variant (own header + length) as body: must not be unwrapped
+            let n0 = bodies.len();
+            for (_, key) in e.variants {
+                let def = schema.get(key);
+                let (c, i) = def.cf.unwrap();
+                let inner = body_of(key, &mut rng);
+                bodies.push(packet(c, i, &inner));
+                // ... also behind an acknowledgement-shaped prefix
+                let mut with_ack = vec![0x80, 0x00, 0x00];
+                with_ack.extend(packet(c, i, &inner));
+                bodies.push(with_ack);
+            }
+            let _ = n0;
             let n = 1 + rng.below(40) as usize;
             bodies.push(rng.bytes(n));
             bodies.push(rng.bytes(3));
